@@ -1352,6 +1352,38 @@ fn c16_judge(ctx: &Ctx, sc: &Script, st: &mut Stats, trace: Option<&PathBuf>, si
     }
 }
 
+
+/// Supplementary: a stream under valgrind memcheck. Judged like any other stream (transcript, exit
+/// status) plus: memcheck must not report an invalid access or a use of uninitialised memory.
+fn c16_memcheck(ctx: &Ctx, sc: &Script, st: &mut Stats, idx: usize) {
+    let log = ctx.out_dir.join("replays").join(format!("C16-memcheck-{}.log.tmp", idx));
+    let case = || J::obj(vec![("kind", J::s("stream")), ("lines", J::arr_s(sc.shown.clone())), ("input_hex", J::s(hex(&sc.bytes))), ("under", J::s("valgrind memcheck"))]);
+    match bb::run_memcheck(&ctx.engine_bin, &sc.bytes, &log, Duration::from_secs(240)) {
+        Err(e) => {
+            st.bump("memcheck_runs_not_possible");
+            st.sample_tagged("memcheck_unavailable", || J::s(format!("memcheck not run: {}", e)));
+        }
+        Ok((lines, code, text)) => {
+            st.bump("streams_under_valgrind_memcheck");
+            st.case(hash64(&(sc.bytes.clone(), 0x3cu8)), true);
+            let bad = text.lines().find(|l| l.contains("Invalid read") || l.contains("Invalid write") || l.contains("uninitialised") || l.contains("Invalid free") || l.contains("Mismatched free") || l.contains("overlap"));
+            if code == Some(99) || bad.is_some() {
+                let first = bad.unwrap_or("error exit code 99").trim_start_matches(|c: char| c == '=' || c.is_ascii_digit() || c == ' ').to_string();
+                st.violation(format!("C16:memcheck:{}", first), format!("valgrind memcheck reports '{}' while the release binary processes the stream", first), case());
+                return;
+            }
+            if let Err(why) = match_transcript(&lines, &sc.expect) {
+                st.violation(format!("C16:transcript:{}:memcheck", hex(&sc.bytes[..sc.bytes.len().min(64)])), format!("protocol transcript deviates from the model (under memcheck): {}", why), case());
+                return;
+            }
+            if code != Some(0) {
+                st.violation(format!("C16:exit-status:{:?}:memcheck", code), format!("the engine terminated with exit code {:?} instead of 0 (under memcheck)", code), case());
+            }
+        }
+    }
+    let _ = std::fs::remove_file(&log);
+}
+
 fn hex(b: &[u8]) -> String {
     b.iter().map(|x| format!("{:02x}", x)).collect()
 }
@@ -1363,7 +1395,7 @@ fn unhex(s: &str) -> Vec<u8> {
 pub fn run_c16(ctx: &Ctx) -> i32 {
     let spec = Spec {
         level: "exploration",
-        rule: "a case is one input stream fed to a fresh process of the real binary: 0..25 lines drawn from uci / isready / ucinewgame / position (unrelated games, and in half of the streams a running game line whose move list grows, stays or shrinks from one position command to the next, also across ucinewgame) / go depth 1 / junk (blank, whitespace, tabs, 20 kB lines, unicode, invalid UTF-8, near-miss command words, GUI-to-engine words this engine does not implement), with optional surrounding blanks and CRLF endings, ending with quit (possibly followed by more lines), at end of input after a full line, or in the middle of a silent line. The transcript must match the protocol model (id lines + uciok per uci, readyok per isready, info* + bestmove per go, nothing else), the exit status must be 0, and after the end of input the process may read fd 0 only a few more times: strace counts zero-length reads and 10 of them with the process still running is the violation witness (an event count, not a timeout). Distinct by input bytes; non-trivial when the stream expects at least one answer or ends without quit",
+        rule: "a case is one input stream fed to a fresh process of the real binary: 0..25 lines drawn from uci / isready / ucinewgame / position (unrelated games, and in half of the streams a running game line whose move list grows, stays or shrinks from one position command to the next, also across ucinewgame) / go depth 1 / junk (blank, whitespace, tabs, 20 kB lines, unicode, invalid UTF-8, near-miss command words, GUI-to-engine words this engine does not implement), with optional surrounding blanks and CRLF endings, ending with quit (possibly followed by more lines), at end of input after a full line, or in the middle of a silent line. The transcript must match the protocol model (id lines + uciok per uci, readyok per isready, info* + bestmove per go, nothing else), the exit status must be 0, and after the end of input the process may read fd 0 only a few more times: strace counts zero-length reads and 10 of them with the process still running is the violation witness (an event count, not a timeout). A few streams additionally run under valgrind memcheck (supplementary: invalid accesses or uses of uninitialised memory in the read loop and at exit would be reported). Distinct by input bytes; non-trivial when the stream expects at least one answer or ends without quit",
         assumptions: vec!["junk never contains a recognised command word as a separate token, so 'ignore the unknown token and parse the rest' engines and 'ignore the whole line' engines agree on every stream sent".into(), "strace -e trace=read,exit_group observes the engine's system calls; when strace cannot attach the fallback witness is CPU burnt while alive after end of input".into()],
         required: if ctx.replay.is_some() { vec![] } else { vec!["streams_ending_with_quit", "streams_ending_mid_line", "streams_ending_at_end_of_input", "answers_expected", "end_of_input_observed_under_strace", "game_lines_continued_across_ucinewgame"] },
         exhaustive: false,
@@ -1398,7 +1430,11 @@ pub fn run_c16(ctx: &Ctx) -> i32 {
             let sc = Script { bytes: bytes.clone(), shown: vec![], expect, ends_with_quit: quit, ends_mid_line: complete_until < bytes.len(), continued_across_newgame: 0 };
             st.case(hash64(&bytes), true);
             let tf = tdir.join("replay.trace");
-            c16_judge(ctx, &sc, &mut st, if use_strace { Some(&tf) } else { None }, "");
+            if c.str_of("under").contains("memcheck") {
+                c16_memcheck(ctx, &sc, &mut st, 99);
+            } else {
+                c16_judge(ctx, &sc, &mut st, if use_strace { Some(&tf) } else { None }, "");
+            }
         }
         return finalize(ctx, spec, st);
     }
@@ -1407,6 +1443,13 @@ pub fn run_c16(ctx: &Ctx) -> i32 {
         let mut st = Stats::new();
         let mut rng = Rng::new(ctx.seed, 1600 + w as u64);
         let tf = tdir.join(format!("w{}.trace", w));
+        // supplementary: a few streams under valgrind memcheck (2 per run in the quick tier, 2 per worker otherwise)
+        if std::env::var("VERIF_NO_BLACKBOX").is_err() && (!ctx.quick() || w < 2) {
+            for k in 0..(if ctx.quick() { 1 } else { 2 }) {
+                let sc = c16_script(&mut rng);
+                c16_memcheck(ctx, &sc, &mut st, w * 4 + k);
+            }
+        }
         for i in 0..(n / ctx.workers as u64 + 1) {
             if ctx.out_of_time() {
                 break;
